@@ -26,6 +26,8 @@ struct Key {
 
 struct Session {
     server: Server<Cat>,
+    /// (owner in wire form, type, class) of every record of the catalog
+    rrsets: Vec<(Vec<u8>, u16, u16)>,
     names: Vec<String>,
     classes: Vec<u16>,
     keys: Vec<Key>,
@@ -55,7 +57,16 @@ fn new_session(r: &mut StdRng, out: &mut Out, o: ZoneOpts, multi_class: bool, nk
     }
     let jkeys: Vec<Value> = keys.iter().map(|k| json!({"name": w(&k.name), "alg": k.alg.tag(), "secret": k.secret})).collect();
     out.emit(json!({"ev": "Cfg", "catalog": g.cfg, "payload": payload, "keys": jkeys, "rrl": rrl, "strict": !o.weird}));
-    Session { server, names: g.names, classes: g.classes, keys, payload }
+    let mut rrsets: Vec<(Vec<u8>, u16, u16)> = Vec::new();
+    for z in &g.cfg {
+        let class = z["class"].as_u64().unwrap() as u16;
+        for rec in z["records"].as_array().unwrap() {
+            let owner: Vec<u8> = rec["owner"].as_array().unwrap().iter().map(|o| o.as_u64().unwrap() as u8).collect();
+            let t = (owner, rec["type"].as_u64().unwrap() as u16, class);
+            if !rrsets.contains(&t) { rrsets.push(t); }
+        }
+    }
+    Session { server, rrsets, names: g.names, classes: g.classes, keys, payload }
 }
 
 fn query_names(s: &Session) -> Vec<String> {
@@ -129,6 +140,7 @@ fn resolve(r: &mut StdRng, out: &mut Out, ncat: usize, per_name: usize, o: ZoneO
 
 /// C04: big answers, random advertised payload sizes, UDP with TCP twin.
 fn size(r: &mut StdRng, out: &mut Out, ncat: usize, per_name: usize) {
+    many_targets_session(r, out);
     let o = ZoneOpts { big: true, weird: false, chains: false };
     for ci in 0..ncat {
         // every other session (the first included) with a server size of 4096, so that complete responses of 514..4096
@@ -210,6 +222,50 @@ fn huge_session(r: &mut StdRng, out: &mut Out, around: &[i64]) {
         let qn = if p <= 64 { format!("{}.huge.test.", "q".repeat(p as usize - 1)) } else { format!("{}.{}.huge.test.", "q".repeat(62), "r".repeat(p as usize - 64)) };
         let m = base_query(r, &qn, 15, 1);
         emit_on(&server, out, &m, Transport::Tcp, false);
+    }
+}
+
+/// C02 / C04: additional-section processing beyond the sixteen hinted targets. An NS RRset (apex) and an MX RRset of
+/// nineteen targets: sixteen ordinary ones, then `ns.mt.test.` with forty addresses, then `a.ns.mt.test.` (below the
+/// former) and `z.mt.test.` with one address each. With the advertised size between "the forty addresses do not fit"
+/// and "the later ones do", the writer rolls the seventeenth target's addresses back (a tolerated truncation) and goes
+/// on writing names that share labels with what it has just rolled back.
+fn many_targets_session(r: &mut StdRng, out: &mut Out) {
+    use quandary::db::catalog::Entry;
+    use quandary::db::zone::GluePolicy;
+    let apex = "mt.test.";
+    let mut soa = w("t01.mt.test.");
+    soa.extend(w("admin.mt.test."));
+    for v in [1u32, 2, 3, 4, 60] { soa.extend_from_slice(&v.to_be_bytes()); }
+    let mut recs = vec![Rec { owner: apex.into(), ty: 6, ttl: 60, rdata: soa }];
+    let mut targets: Vec<String> = (1..=16).map(|i| format!("t{:02}.mt.test.", i)).collect();
+    targets.extend(["ns.mt.test.".to_string(), "a.ns.mt.test.".to_string(), "z.mt.test.".to_string()]);
+    for (i, t) in targets.iter().enumerate() {
+        recs.push(Rec { owner: apex.into(), ty: 2, ttl: 60, rdata: w(t) });
+        let mut rd = vec![0, i as u8];
+        rd.extend(w(t));
+        recs.push(Rec { owner: "mx.mt.test.".into(), ty: 15, ttl: 60, rdata: rd });
+        let naddr = if t == "ns.mt.test." { 40 } else { 1 };
+        for k in 0..naddr { recs.push(Rec { owner: t.clone(), ty: 1, ttl: 60, rdata: vec![10, 1, i as u8, k as u8] }); }
+    }
+    let (zone, jrecs, _) = build_zone(apex, 1, &recs, GluePolicy::Narrow);
+    let mut cat = Cat::new();
+    cat.insert(Entry::Loaded(Arc::new(zone), ()));
+    let mut server = Server::new(Arc::new(cat));
+    server.set_edns_udp_payload_size(4096).unwrap();
+    out.emit(json!({"ev": "Cfg", "catalog": [{"name": w(apex), "class": 1, "state": "loaded", "records": jrecs}], "payload": 4096, "keys": [], "rrl": false, "strict": true}));
+    for (qn, ty) in [("mt.test.", 2u16), ("mx.mt.test.", 15)] {
+        let base = base_query(r, qn, ty, 1);
+        let full = handle(&server, &{ let mut t = base.clone(); push_additional(&mut t, &opt_rr(4096, 0, &[0], &[])); t }, Transport::Tcp, SRC);
+        let l0 = full["resp"].as_array().map(|a| a.len()).unwrap_or(0) as i64;
+        // prefix before the seventeenth target's addresses = complete length - 40 x 16 - 2 x 16 - OPT
+        let p = l0 - 640 - 32 - 11;
+        for x in [p + 27, p + 60, p + 300, p + 640, p + 650, p + 651, l0] {
+            if x < 512 || x > 4096 { continue; }
+            let mut m = base.clone();
+            push_additional(&mut m, &opt_rr(x as u16, 0, &[0], &[]));
+            emit_on(&server, out, &m, Transport::Udp, true);
+        }
     }
 }
 
@@ -348,7 +404,15 @@ fn mutate_one(r: &mut StdRng, s: &Session, out: &mut Out, base: &[u8], t: Transp
         1 => { for _ in 0..r.gen_range(1..21) { m.push(r.gen()); } }
         2 => { let which = *[5usize, 7, 9, 11].choose(r).unwrap(); m[which] = *[0u8, 1, 2, 3, 255].choose(r).unwrap(); }
         3 => { let which = *[4usize, 6, 8, 10].choose(r).unwrap(); m[which] = *[1u8, 255].choose(r).unwrap(); }
-        4 => { m[2] |= 0x80; }
+        4 => {
+            if r.gen_bool(0.5) { m[2] |= 0x80; } else {
+                // counts that only overflow together: ANCOUNT + NSCOUNT >= 65536
+                let an: u16 = *[0xffffu16, 0x8000, 0xfffe].choose(r).unwrap();
+                let ns: u16 = (0x10000u32 - an as u32) as u16 + r.gen_range(0..2);
+                m[6..8].copy_from_slice(&an.to_be_bytes());
+                m[8..10].copy_from_slice(&ns.to_be_bytes());
+            }
+        }
         5 => { m[2] = (r.gen_range(0..16u8) << 3) | (m[2] & 1); m[3] = r.gen(); }
         6 => {
             let ttl: u32 = *[0u32, 0x00010000, 0x80010000, 0x80000000, 0x00008000, 0xff000000, 0x00ff0000, 0x7f000000, 0x8000_8000].choose(r).unwrap();
@@ -575,7 +639,13 @@ fn tsig(r: &mut StdRng, out: &mut Out, ncat: usize, n: usize) {
                 9 => { extra_after = true; }
                 10 => { p.fudge = *[0u16, 1, 2].choose(r).unwrap(); p.time = p.time.saturating_sub(r.gen_range(0..3)); }
                 11 => { p.other = (0..r.gen_range(1..8)).map(|_| r.gen()).collect(); }
-                12 => { p.time = *[0u64, 1 << 31, (1 << 32) + 5, (1 << 47) + 1].choose(r).unwrap(); }
+                12 => {
+                    // far outside the window; also the present plus a multiple of 2^32 whose bits all occur in bits 16..31
+                    // of the present (a 48-bit time put together from the wrong halves reads that as "now")
+                    let now = unix_now();
+                    let k = (now >> 16) & 0xffff;
+                    p.time = *[0u64, 1 << 31, (1 << 32) + 5, (1 << 47) + 1, now + (k << 32), now + ((k & k.wrapping_neg()) << 32), now + (1 << 32)].choose(r).unwrap();
+                }
                 13 => { p.error = *[16u16, 17, 18, 1].choose(r).unwrap(); }
                 14 => {
                     // an algorithm "name" of 255 (maximal), 256 or 257 octets on the wire (the last two are not names)
@@ -682,6 +752,16 @@ fn total(r: &mut StdRng, out: &mut Out, scale: usize) {
                     if m.len() >= 12 && r.gen_bool(0.7) { m[2] &= 0x07; for k in [4usize, 6, 8, 10] { m[k] = 0; } for k in [5usize, 7, 9, 11] { m[k] &= 1; } }
                     emit_req(&s, out, &m, t, false);
                 }
+            }
+        }
+        // catalogs that validation would reject: every RRset is asked for once by name, type and class (a malformed
+        // record is only reached by the query that makes the server write it or process its RDATA)
+        if weird {
+            let mut sets = s.rrsets.clone();
+            sets.shuffle(r);
+            for (owner, ty, class) in sets.into_iter().take(60) {
+                let m = Query { id: r.gen(), flags: 0, qname: owner, qtype: ty, qclass: class }.encode();
+                emit_req(&s, out, &m, pick_transport(r), false);
             }
         }
         // a signed request per session when keys exist (valid and with long names)
